@@ -76,8 +76,8 @@ CHECKS = {
          'Exploration: geometry, Feature and FeatureCollection round trips (ids, bboxes, random property maps, null geometry, numeric ids), JSON output re-read by an independent reader with exact number conversion, and decoder totality over valid documents, structure-aware mutations, byte mutations, deep nesting, huge exponents and random bytes.',
          'Trusts the reference JSON reader; properties compared via encoding/json canonical output; the carve-outs are encoded in geojsonExpect only.',
          '3/C07'),
- 'C17': ('Go race detector over a randomised concurrent call mix + bitwise input hashing + golden-result comparison + measured overlap table',
-         'Exploration of schedules: 36 groups of non-mutating entry points (all query, encode and decode paths) run on shared fixtures sequentially (input hash after every call) and then from 64 goroutines under -race at GOMAXPROCS 2/8/16 and several fixture seeds, with no harness synchronisation between barrier and join; every concurrent result is compared with the solo result; a third phase measures which function pairs really overlapped.',
+ 'C17': ('Go race detector over a randomised concurrent call mix (cold-start phase first) + bitwise input hashing + golden-result comparison + measured overlap table',
+         'Exploration of schedules: 49 groups of non-mutating entry points (all query, encode and decode paths) on shared fixtures (spare capacity filled with canaries, -0 ordinates, segment pairs in special position, rejected WKT tails). Phase 0: the process\'s first calls into the library are made by 32 goroutines at once (cold tables, caches and pools); phase 1: sequentially, with a bitwise hash of all shared inputs after every call (golden results); phase 1b: GC-off bursts of 3300 calls per entry point; phase 2: 64 goroutines under -race at GOMAXPROCS 2/8/16 and several fixture seeds, with no harness synchronisation between barrier and join; every concurrent result is compared with the solo result; phase 3 measures which function pairs really overlapped.',
          'Trusts the race detector (reports unordered conflicting accesses on executed paths only); schedules are sampled, not enumerated.',
          '3/C17'),
  'C18': ('exact decimal/rational oracle on every emitted numeral + independent WKT/JSON readers for well-formedness and structure',
